@@ -80,6 +80,14 @@ func refRevComp(s string) string {
 	return string(b)
 }
 
+// trimShow keeps messages readable on tall inputs: the rows that differ are what matters
+func trimShow(rows []gen.Row) []gen.Row {
+	if len(rows) > 12 {
+		return append(append([]gen.Row{}, rows[:6]...), rows[len(rows)-6:]...)
+	}
+	return rows
+}
+
 func ungapped(s string) string { return strings.ReplaceAll(s, "-", "") }
 
 const dnaChars = "ACGTRYSWKMBDHVNacgtryswkmbdhvn-.*"
@@ -100,6 +108,12 @@ func genRC(t *rapid.T) rcCase {
 	l := rapid.IntRange(0, 25).Draw(t, "L")
 	if !c.Bag && l == 0 {
 		l = 1
+	}
+	// a low-rate class of tall inputs (an implementation may treat many rows differently,
+	// e.g. in blocks per cpu): every row is still compared with the oracle
+	if rapid.IntRange(0, 59).Draw(t, "tall") == 0 {
+		n = rapid.IntRange(1000, 1100).Draw(t, "tallrows")
+		l = rapid.IntRange(1, 3).Draw(t, "tallL")
 	}
 	chars := dnaChars
 	switch rapid.IntRange(0, 3).Draw(t, "tier") {
@@ -131,11 +145,44 @@ func genRC(t *rapid.T) rcCase {
 	return c
 }
 
-func build(c rcCase) align.SeqBag {
-	if c.Bag {
-		return gen.BuildBag(c.Ali)
+// withComments builds the container with a distinct comment on every sequence: the
+// transforms of this property touch residues only, so names AND comments must survive them
+func withComments(a gen.Ali, bag bool) align.SeqBag {
+	var sb align.SeqBag
+	if bag {
+		sb = align.NewSeqBag(alphabetOf(a))
+	} else {
+		sb = align.NewAlign(alphabetOf(a))
 	}
-	return gen.MustBuild(c.Ali)
+	for i, r := range a.Rows {
+		if err := sb.AddSequence(r.Name, r.Seq, commentOf(i)); err != nil {
+			panic(fmt.Sprintf("harness: cannot build the container: %v", err))
+		}
+	}
+	return sb
+}
+
+func alphabetOf(a gen.Ali) int {
+	if a.Alphabet == "aa" {
+		return align.AMINOACIDS
+	}
+	return align.NUCLEOTIDS
+}
+
+func commentOf(i int) string { return fmt.Sprintf("comment %d of the row", i) }
+
+// commentsKept compares the comments of a container with the ones given at construction
+func commentsKept(sb align.SeqBag, what string) error {
+	for i, s := range sb.Sequences() {
+		if s.Comment() != commentOf(i) {
+			return fmt.Errorf("%s: the comment of row %d (%s) is %q, it was %q", what, i, s.Name(), s.Comment(), commentOf(i))
+		}
+	}
+	return nil
+}
+
+func build(c rcCase) align.SeqBag {
+	return withComments(c.Ali, c.Bag)
 }
 
 func checkRC(c rcCase) (o pbt.Outcome, err error) {
@@ -171,7 +218,10 @@ func checkRC(c rcCase) (o pbt.Outcome, err error) {
 	}
 	got := gen.Snapshot(sb)
 	if !gen.SameRows(got, want) {
-		return o, fmt.Errorf("reverse complement differs from the set-derived oracle\n got : %s\n want: %s", gen.Show(got), gen.Show(want))
+		return o, fmt.Errorf("reverse complement differs from the set-derived oracle\n got : %s\n want: %s", gen.Show(trimShow(got)), gen.Show(trimShow(want)))
+	}
+	if e := commentsKept(sb, "reverse complement"); e != nil {
+		return o, e
 	}
 	if al, ok := sb.(align.Alignment); ok {
 		if al.Length() != c.Ali.Length() {
@@ -286,6 +336,10 @@ func genCase(t *rapid.T) caseCase {
 	c.Bag = rapid.Bool().Draw(t, "bag")
 	n := rapid.IntRange(1, 6).Draw(t, "rows")
 	l := rapid.IntRange(1, 25).Draw(t, "L")
+	if rapid.IntRange(0, 59).Draw(t, "tall") == 0 {
+		n = rapid.IntRange(1000, 1100).Draw(t, "tallrows")
+		l = rapid.IntRange(1, 3).Draw(t, "tallL")
+	}
 	chars := dnaChars
 	c.Ali.Alphabet = "nt"
 	if rapid.Bool().Draw(t, "protein") {
@@ -323,12 +377,7 @@ func asciiLower(s string) string {
 }
 
 func checkCase(c caseCase) (o pbt.Outcome, err error) {
-	mk := func() align.SeqBag {
-		if c.Bag {
-			return gen.BuildBag(c.Ali)
-		}
-		return gen.MustBuild(c.Ali)
-	}
+	mk := func() align.SeqBag { return withComments(c.Ali, c.Bag) }
 	rows := c.Ali.Rows
 	// upper
 	sb := mk()
@@ -343,6 +392,9 @@ func checkCase(c caseCase) (o pbt.Outcome, err error) {
 	if !gen.SameRows(gen.Snapshot(sb), up) {
 		return o, fmt.Errorf("ToUpper is not idempotent")
 	}
+	if e := commentsKept(sb, "ToUpper"); e != nil {
+		return o, e
+	}
 	// lower
 	sb = mk()
 	sb.ToLower()
@@ -355,6 +407,9 @@ func checkCase(c caseCase) (o pbt.Outcome, err error) {
 	sb.ToLower()
 	if !gen.SameRows(gen.Snapshot(sb), lo) {
 		return o, fmt.Errorf("ToLower is not idempotent")
+	}
+	if e := commentsKept(sb, "ToLower"); e != nil {
+		return o, e
 	}
 	// lower then upper = upper
 	sb.ToUpper()
@@ -379,6 +434,12 @@ func checkCase(c caseCase) (o pbt.Outcome, err error) {
 	}
 	if !gen.SameRows(gen.Snapshot(sb), rows) {
 		return o, fmt.Errorf("Unalign modified its input")
+	}
+	if e := commentsKept(un, "Unalign (result)"); e != nil {
+		return o, e
+	}
+	if e := commentsKept(sb, "Unalign (input)"); e != nil {
+		return o, e
 	}
 	// the un-aligned set owns its residues: transforming it leaves the source alone, and
 	// transforming the source leaves it alone (a gap-free row is the easy one to share)
